@@ -250,6 +250,11 @@ def run(ctx):
         types.append(G.gen_type(rng, rng.choice([2, 2, 3]), 'comparable'))
     types.append(T.pair(T.INT, T.NAT, T.STRING))
     types.append(T.pair(T.pair(T.INT, T.INT), T.INT))
+    # enumerations: unions whose leaves are all unit, nested in every shape, and their neighbours
+    U = T.UNIT
+    enums = [T.or_(U, U), T.or_(T.or_(U, U), U), T.or_(U, T.or_(U, U)), T.or_(T.or_(U, U), T.or_(U, U)), T.or_(T.or_(T.or_(U, U), U), T.or_(U, T.or_(U, U))),
+             T.option(T.or_(U, U)), T.or_(T.option(U), U), T.pair(T.or_(U, U), T.or_(T.or_(U, U), U)), T.or_(T.or_(U, T.NAT), T.or_(T.BOOL, U)), T.option(T.option(U))]
+    types = types[:3] + enums + types[3:]
     for i, t in enumerate(types):
         if not ctx.mine(i):
             continue
